@@ -305,7 +305,7 @@ PROPS = {
     ),
     "C04": dict(
         level="other",
-        contracts=["contracts.lines", "contracts.directives"],
+        contracts=["contracts.lines", "contracts.directives", "contracts.render2"],
         flow=["checks.flow_lines:run"],
         harness=True,
         explanation=(
@@ -317,7 +317,8 @@ PROPS = {
             "nested_render_text hands to _render_tokens exactly the tokens parsed from `text` (+ final newline; minus a "
             "leading front-matter token) with every mapped token starting `lineno` lines below where the parser saw it - "
             "so node.line = parser line + lineno + 1 for text found at 0-based offset lineno - and restores the heading "
-            "offset; parse_directive_text's body_offset counts exactly the content lines in front of the body (see C08).  FLOW: no other store to a `.map` attribute exists in the package (frame of the above).  NOT under "
+            "offset; the renderers of code blocks (indented and fenced, strict modes), images, block breaks, amsmath and labelled math "
+            "attach a node whose line is the token's 1-based first line (a token without a map gives no line); parse_directive_text's body_offset counts exactly the content lines in front of the body (see C08).  FLOW: no other store to a `.map` attribute exists in the package (frame of the above).  NOT under "
             "contract: the offsets callers pass as `lineno` (run_directive / MockState.nested_parse / _parse_directive_options / "
             "include), hence BOUNDED: generated documents whose generator knows the first line of "
             "every construct (paragraph, heading, list item, code block, raw HTML, table) nested up to depth 3 in block "
@@ -342,7 +343,7 @@ PROPS = {
             "a value of the open-level map - by the map invariant a document or a section - so sections occur only directly "
             "under the document or another section, for every heading sequence - and render_heading, its only caller, is "
             "proved to call it with a fresh parentless section only when the current node is the document, a section or "
-            "a temporary root, and to put the title first; the nineteen render methods under the generic "
+            "a temporary root, and to put the title first; the render methods under the generic "
             "render contract (see C02) attach every node they create exactly once, with its parent set, below the current "
             "node (single parent, no node shared).  The other clauses of C03 (title first, "
             "transitions, unique ids, refid existence, table shape, footnote labels) are not yet under contract and are "
@@ -354,18 +355,20 @@ PROPS = {
     ),
     "C02": dict(
         level="other",
-        contracts=["contracts.render"],
+        contracts=["contracts.render", "contracts.render2"],
         harness=True,
         explanation=(
             "PROVED (pyvc, relative to the docutils node model and to the assumed induction hypothesis G' for the dynamic "
             "dispatch in render_children): the generic render contract G for render_paragraph, render_bullet_list, "
             "render_list_item, render_em, render_strong, render_span, render_blockquote (without attribution), render_s (containers) and render_inline, render_text, render_softbreak, "
             "render_hardbreak, render_hr, render_code_inline, render_myst_line_comment, render_math_inline / _single / "
-            "_inline_double / _block (leaves): the current node is the same node afterwards; what it already had is kept "
+            "_inline_double / _block, render_myst_block_break, render_amsmath, render_math_block_label, render_image, render_code_block (leaves), "
+            "render_ordered_list (container) and render_fence (in the strict CommonMark / GFM modes every fence is one literal block with "
+            "the content verbatim up to its final newline, at the line of the opening fence; in MyST mode the directive paths are seen through G'): the current node is the same node afterwards; what it already had is kept "
             "in order; a container attaches exactly ONE new node of its kind there (parent set, line = the token's line) "
             "and renders the token's children while THAT node is the current node; a leaf attaches exactly its leaf nodes, "
-            "text, inline-code and math tokens with their content verbatim.  Not under G (assumed through G'): headings, code blocks, links, "
-            "images, tables, directives, roles, targets, footnotes, the ordered-list style table, the Sphinx overrides.  "
+            "text, inline-code and math tokens with their content verbatim.  Not under G (assumed through G'): links other than anchors, "
+            "tables, directives, roles, definition and field lists, raw HTML, substitutions, the Sphinx overrides (headings, targets and footnotes have contracts of their own: C03/C05, C09, C11).  "
             "BOUNDED: the doctree of "
             "generated documents against the markdown-it token tree of the same text and mode - leaf sequence (text, inline "
             "code, code blocks, raw HTML, images, thematic breaks, hard breaks) identical in order and content, every leaf "
@@ -376,10 +379,10 @@ PROPS = {
         ),
         assumptions=["markdown-it-py's token tree is the parse of the Markdown (oracle)",
                      "G' (render_children appends below the current node only and restores it) is the induction hypothesis of G: "
-                     "proved for the nineteen methods above given G' for their sub-trees, assumed for every other render method"],
+                     "proved for the twenty-six methods above given G' for their sub-trees, assumed for every other render method"],
         trusted_base=["docutils node model and constructors (contracts/assumed_docutils.py, contracts/render.py)",
                       "DocutilsRenderer.copy_attributes (assumed: touches attributes and may append warning nodes to the new node)"],
-        technique="contract-based deductive verification of the generic render contract on nineteen render_* methods; "
+        technique="contract-based deductive verification of the generic render contract on twenty-six render_* methods; "
                   "bounded run-time stand-in (token-tree vs doctree comparison on generated documents) for the whole pipeline",
     ),
     "C06": dict(
